@@ -3,6 +3,10 @@
 # and store it under /verif/seeded/<PID>-m<k>/ . The scratch worktree is /tmp/mut/port (outside /repo and /verif).
 PID=$1; K=$2; BASE=${SRCBASE:-/tmp/mut}; TAG=${SEEDTAG:-m}; SRC=$BASE/$PID/out; W=/tmp/mut/port
 export GOFLAGS=-mod=mod GOPROXY=off GOSUMDB=off GOTOOLCHAIN=local
+# a build cache of its own: one worktree must never be used by two of these scripts at once (a build that races with
+# a checkout stores an object under the wrong content hash and the poisoned entry outlives the race)
+export GOCACHE=${MUT_GOCACHE:-/var/tmp/gocache-mut}
+exec 9>/var/tmp/mut-worktree.lock; flock 9
 cd $W && git checkout -q --detach main && git checkout -q -- . && git clean -fdq
 D=$SRC/m$K.diff; [ -f $SRC/m$K.ported.diff ] && D=$SRC/m$K.ported.diff
 if ! git apply $D 2>/dev/null; then git apply -3 $D >/dev/null 2>&1 || { echo "$PID m$K: patch does not apply"; git checkout -q HEAD -- . ; git reset -q; exit 1; }; git reset -q; fi
